@@ -2,7 +2,7 @@ SPECIFICATION Spec
 CONSTANTS
   N = 3
   Refs = {"a", "b"}
-  MaxDepth = 4
+  MaxDepth = 6
   MaxPacks = 2
   WithCopies = TRUE
   WithIdx = FALSE
@@ -14,12 +14,9 @@ CONSTANTS
   BitmapExcludeExact = TRUE
   ProvidersAgree = TRUE
   DeleteDropsPacked = TRUE
-  CgHonoursShallow = TRUE
+  CgHonoursShallow = FALSE
   Focus = "all"
 INVARIANT TypeOK
 INVARIANT Transparent
-INVARIANT Exact
-INVARIANT RefsTransparent
-INVARIANT StaleRejected
 VIEW view
 CHECK_DEADLOCK FALSE
